@@ -408,6 +408,11 @@ def norm_iter_chains(text, m, body_open, body_close):
         edits.append(Edit(mm.start(1), "", "verif_filter_count(&", "norm:N13"))
         edits.append(Edit(mm.start(2), text[mm.start(2) : mm.end(2)], ", ", "norm:N13"))
         edits.append(Edit(t.start(), text[t.start() : t.end()], ")", "norm:N13"))
+    # `let S: HashSet<usize> = A.iter().copied().collect();` -> `... = verif_slice_into_set(A);`
+    for mm in re.finditer(r":\s*HashSet<usize>\s*=\s*((\w+)\s*\.iter\(\)\s*\.copied\(\)\s*\.collect\(\))", m[:body_close]):
+        if mm.start() < body_open:
+            continue
+        edits.append(Edit(mm.start(1), text[mm.start(1) : mm.end(1)], "verif_slice_into_set(" + mm.group(2) + ")", "norm:N13"))
     # `Q.retain(C)` on a VecDeque -> `verif_deque_retain(&mut Q, C)` (vstd has no specification of VecDeque::retain)
     for mm in _N13_RETAIN.finditer(m, body_open, body_close):
         if closure_at(mm.end()) is None:
@@ -869,7 +874,9 @@ def gen_fn(d, strip_paths, mode="verify", contract_text=None, vacuity=False):
     # change; same indices, same elements, same order.  vstd has no specification of Enumerate.)
     #      `for (i, x) in A.iter().enumerate().skip(C) {` -> `for i in C..A.len() { let x = &A[i];`   (C an identifier,
     #      evaluated once at loop entry in both forms; the original yields (i, &A[i]) for C <= i < A.len())
-    n15 = re.compile(r"for\s+(\((\w+), (&?)(\w+)\))\s+in\s+((\w+(?:\.\w+)*)\s*\.iter\(\)\s*\.enumerate\(\)(?:\s*\.skip\((\w+)\))?)\s*\{")
+    #      `for (i, x) in A.iter_mut().enumerate() {` -> `for i in 0..A.len() { let x = &mut A[i];`   (the loop holds the only
+    #      borrow of A in the original, so its length cannot change; same indices, same elements, same order)
+    n15 = re.compile(r"for\s+(\((\w+), (&?)(\w+)\))\s+in\s+((\w+(?:\.\w+)*)\s*\.iter(_mut)?\(\)\s*\.enumerate\(\)(?:\s*\.skip\((\w+)\))?)\s*\{")
     for kw, ks, lo, lc in loops:
         if kw != "for":
             continue
@@ -877,8 +884,9 @@ def gen_fn(d, strip_paths, mode="verify", contract_text=None, vacuity=False):
         if mm and mm.end() - 1 == lo:
             idx, amp, x, place = mm.group(2), mm.group(3), mm.group(4), mm.group(6)
             edits.append(Edit(mm.start(1), text[mm.start(1) : mm.end(1)], idx, "norm:N15"))
-            edits.append(Edit(mm.start(5), text[mm.start(5) : mm.end(5)], (mm.group(7) or "0") + ".." + place + ".len()", "norm:N15"))
-            edits.append(Edit(lo + 1, "", " let " + x + " = " + ("" if amp else "&") + place + "[" + idx + "];", "norm:N15"))
+            edits.append(Edit(mm.start(5), text[mm.start(5) : mm.end(5)], (mm.group(8) or "0") + ".." + place + ".len()", "norm:N15"))
+            # (the `&mut` element borrow goes after a loop-body prologue, which may still want to read A)
+            edits.append(Edit(lo + 1, "", " let " + x + " = " + ("" if amp else ("&mut " if mm.group(7) else "&")) + place + "[" + idx + "];", "norm:N15m" if mm.group(7) else "norm:N15"))
 
     # N16: a reference pattern inside `if let Some(&x) = E {` (Verus has no ref patterns):
     #      -> `if let Some(verif_ref_x) = E { let x = *verif_ref_x;`   (x: Copy, as in N4)
@@ -919,7 +927,7 @@ def gen_fn(d, strip_paths, mode="verify", contract_text=None, vacuity=False):
             continue
         final.append(x)
     # merge multiple zero-width insertions at the same offset deterministically by kind order
-    order = {"splice:S5": 0, "splice:S6": 0, "norm:N7": 1, "splice:S1": 2, "splice:S3": 2, "norm:N9": 2, "splice:S2": 3, "norm:N4": 3, "splice:S4": 4, "splice:S7": 2, "norm:N12": 3, "norm:N13": 1, "norm:N14": 4, "norm:N15": 3, "norm:N16": 3}
+    order = {"splice:S5": 0, "splice:S6": 0, "norm:N7": 1, "splice:S1": 2, "splice:S3": 2, "norm:N9": 2, "splice:S2": 3, "norm:N4": 3, "splice:S4": 4, "splice:S7": 2, "norm:N12": 3, "norm:N13": 1, "norm:N14": 4, "norm:N15": 3, "norm:N15m": 6, "norm:N16": 3}
     final.sort(key=lambda x: (x.off, 0 if x.old == "" else 1, order.get(x.kind, 5)))
     out, placed = apply_edits(text, final)
     if erase(out, placed) != text:
